@@ -60,10 +60,10 @@ def run(prog, rep, tier):
                     continue
                 if kind in ("S", "SE") and f.name == "__init__":
                     continue
-                rule = {"P": "M1.param", "PE": "M1.param", "S": "M2.self", "SE": "M2.self", "D": "M5.default", "G": "M5.module-state"}[kind]
+                rule = {"P": "M1.param", "PE": "M1.param", "S": "M2.self", "SE": "M2.self", "D": "M5.default", "G": "M5.module-state", "U": "M1.callable-result"}[kind]
                 msg = "%s %s an object reachable from %s `%s` of %s%s" % (
                     w.how, "may write" if may else "writes", {"P": "parameter", "PE": "an element of parameter", "S": "self attribute",
-                                                            "SE": "an element of self attribute", "D": "the default value of", "G": "module-level object"}[kind], name, f.qname, via)
+                                                            "SE": "an element of self attribute", "D": "the default value of", "G": "module-level object", "U": "the array returned by the user's callable"}[kind], name, f.qname, via)
                 if note_only:
                     rep.notes.append("NOTE drf: " + msg)
                 else:
